@@ -176,7 +176,7 @@ func zzConn14(c *Canary, peer net.IP, sport, dport uint16, st SocketState, iss, 
 	}
 	s.RecvNext = rcvNext
 	s.ID = 7
-	if zzParam("SYM", 0) == 1 {
+	if zzParam("SYM", 0) == 1 || zzParam("SYMID", 0) == 1 {
 		s.ID = uint32(zzU16())
 	}
 	c.stateTable.Add(s)
